@@ -21,6 +21,13 @@ def _run(pid, mod, root, tier):
     try:
         repo = Repo(root)
         res.analysed["modules_parsed"] = len(repo.mods)
+        import rules_t1
+        rules_t1.init_aliases(repo)
+        res.current_funcs = set()
+        for _m, qn, _fn, _cl in repo.all_functions():
+            base = qn.split(" (")[0]
+            res.current_funcs.add(base)
+            res.current_funcs.add(base.split(".")[-1])
         extra = mod.run(repo, res, tier) or {}
     except common.AnalysisError as e:
         err = e
